@@ -22,6 +22,7 @@ def run(prop, tier):
     jobs.append(dict(src=SRC, ksim=True, args=["dgram", "-p", p, "-d", d, "--", 4, 4, "z"]))       # empty datagrams
     jobs.append(dict(src=SRC, ksim=True, args=["dgram", "-p", p, "-d", d, "--", 16, 6, "z"]))
     jobs.append(dict(src=SRC, ksim=True, args=["peergone", "-p", p + 1, "-d", d]))
+    jobs.append(dict(src=SRC, ksim=True, args=["peergone", "-p", p, "-d", d, "--", "handler"]))       # the application had installed a SIGPIPE handler before p_libsys_init
     jobs.append(dict(src=SRC, ksim=True, args=["halfclose", "-p", p, "-d", d]))
     jobs.append(dict(src=SRC, ksim=True, args=["accept2", "-p", p, "-d", d]))      # two threads in accept on one listener, one connection
     for v in ("b50", "n"):       # connect whose handshake stays pending, under every pattern of interruptions of connect / poll
